@@ -748,8 +748,10 @@ where
     /// pending) leaves the chain position behind. The adapters above the current position
     /// are locked while, and only while, such a call is in progress, which tells the two apart.
     fn resync_chain(&mut self) {
-        if self.ax > 0 && self.adapters[self.ax - 1].try_lock().is_ok() {
-            self.ax = 0;
+        // Fall back to the innermost adapter which is still running: the call may have been
+        // given up by an adapter in the middle of the chain, with the ones below it waiting.
+        while self.ax > 0 && self.adapters[self.ax - 1].try_lock().is_ok() {
+            self.ax -= 1;
         }
     }
 
